@@ -33,7 +33,6 @@ import (
 )
 
 const (
-	scionPort    = 10123 // the listener's own port (localHostPort)
 	endhostPort  = 30041
 	srvDSCP      = 10
 	sentinelSecs = 0x5E471E13
@@ -41,9 +40,12 @@ const (
 	nSenders     = 6
 )
 
+// scionPort: the listener's own port (localHostPort); the dual-stack child uses a port of its own
+var scionPort = 10123
+
 // ports of the harness sockets that can be the target of a forwarded packet
 // (or of a reply that wrongly goes to the SCION source instead of the previous hop)
-var targetPorts = []int{31000, 31001, endhostPort, scionPort, 31002}
+var targetPorts = []int{31000, 31001, endhostPort, 10123, 31002}
 
 type sysClock struct{}
 
@@ -95,7 +97,11 @@ func ownAddr(second byte) net.IP {
 func newDrv() *drv { return newDrvDaemon("") }
 
 // newDrvDaemon: the listeners fetch their DRKeys from the daemon at daemonAddr ("" = none: mock keys only).
-func newDrvDaemon(daemonAddr string) *drv {
+func newDrvDaemon(daemonAddr string) *drv { return newDrvBind(daemonAddr, nil) }
+
+// newDrvBind: bind != nil: the listener's configured local address (e.g. the IPv6 wildcard: a
+// dual-stack socket); datagrams are sent to srvIP, which then has no socket of its own.
+func newDrvBind(daemonAddr string, bind net.IP) *drv {
 	d := &drv{}
 	timebase.RegisterClock(sysClock{})
 	d.provider = ntske.NewProvider()
@@ -104,20 +110,35 @@ func newDrvDaemon(daemonAddr string) *drv {
 	d.dispIP = ownAddr(113)
 	d.hIP = ownAddr(213)
 	log := slog.New(slog.DiscardHandler)
+	if os.Getenv("C13_LOG") != "" { // debugging aid: the listeners' log on stderr
+		log = slog.New(slog.NewTextHandler(os.Stderr, nil))
+	}
 	ctx := context.Background()
 	// the server and the dispatcher register the same collectors
 	defReg := prometheus.DefaultRegisterer
 	d.srvReg = prometheus.NewRegistry()
 	prometheus.DefaultRegisterer = d.srvReg
-	server.StartSCIONServer(ctx, log, daemonAddr, &net.UDPAddr{IP: d.srvIP, Port: scionPort}, srvDSCP, d.provider)
+	srvBind := d.srvIP
+	if bind != nil {
+		srvBind = bind
+		d.srvIP = ownAddr(16)
+	}
+	server.StartSCIONServer(ctx, log, daemonAddr, &net.UDPAddr{IP: srvBind, Port: scionPort}, srvDSCP, d.provider)
 	d.dispReg = prometheus.NewRegistry()
 	prometheus.DefaultRegisterer = d.dispReg
-	server.StartSCIONDispatcher(ctx, log, &net.UDPAddr{IP: d.dispIP, Port: scionPort})
+	ports := targetPorts
+	if bind == nil {
+		server.StartSCIONDispatcher(ctx, log, &net.UDPAddr{IP: d.dispIP, Port: scionPort})
+	} else {
+		// the wildcard sockets of the listener own ports 10123 and 30041 of every local address:
+		// no dispatcher, no harness socket on these ports
+		ports = []int{31000, 31001, 31003, 31004, 31002}
+	}
 	prometheus.DefaultRegisterer = defReg
 	for i := 0; i < nSenders+len(targetPorts); i++ {
 		port := 0
 		if i >= nSenders {
-			port = targetPorts[i-nSenders]
+			port = ports[i-nSenders]
 		}
 		c, err := net.ListenUDP("udp4", &net.UDPAddr{IP: d.hIP, Port: port})
 		if err != nil {
@@ -136,7 +157,7 @@ func (d *drv) cfgString() string {
 		a := s.LocalAddr().(*net.UDPAddr)
 		socks = append(socks, lib.L(lib.B(a.IP.To4()), lib.I(int64(a.Port))))
 	}
-	return lib.L(lib.I(scionPort), lib.I(srvDSCP), lib.I(nSenders), lib.L(socks...))
+	return lib.L(lib.I(int64(scionPort)), lib.I(srvDSCP), lib.I(nSenders), lib.L(socks...))
 }
 
 // drain returns what is queued on a socket right now without waiting.
@@ -550,7 +571,7 @@ func (d *drv) nextSentinelNTP() []byte {
 func (d *drv) sentinelFor(listener int) []byte {
 	h := &pktSpec{dstIA: 0x0001ff0000000112, srcIA: 0x0001ff0000000111,
 		dstRaw: []byte{10, 9, 8, 7}, srcRaw: append([]byte(nil), d.hIP...), auth: -1,
-		udpSrc: 31002, udpDst: scionPort}
+		udpSrc: 31002, udpDst: uint16(scionPort)}
 	if listener == 2 {
 		d.seq++
 		h.scmp, h.scmpType = true, uint8(slayers.SCMPTypeEchoRequest)
